@@ -7,35 +7,40 @@
 (* with `Fine = FALSE` the harness settles after every event.               *)
 EXTENDS Naturals, Sequences, FiniteSets, TLC
 
-CONSTANTS NConn, MaxSend, MaxTicks, Fine, D, ReqSet
+CONSTANTS NConn, MaxSend, MaxTicks, Fine, D, ReqSet,
+          WithX      \* TRUE: one more connection, for ANOTHER service id, may open and close (its cleanup holds the global lock)
 
 Conns == 1..NConn
-VARIABLES phase, sent, timers, ticks, hist
-vars == <<phase, sent, timers, ticks, hist>>
+VARIABLES phase, sent, timers, ticks, hist, xphase
+vars == <<phase, sent, timers, ticks, hist, xphase>>
 
 Init == /\ phase = [c \in Conns |-> "new"] /\ sent = [c \in Conns |-> 0]
-        /\ timers = 0 /\ ticks = 0 /\ hist = <<>>
+        /\ timers = 0 /\ ticks = 0 /\ hist = <<>> /\ xphase = "new"
 
 (* connections open in numeric order (symmetry: connection ids are just names) *)
 Open(c) == /\ phase[c] = "new" /\ (IF c = 1 THEN TRUE ELSE phase[c - 1] # "new")
            /\ phase' = [phase EXCEPT ![c] = "open"]
-           /\ hist' = Append(hist, <<"open", c>>) /\ UNCHANGED <<sent, timers, ticks>>
+           /\ hist' = Append(hist, <<"open", c>>) /\ UNCHANGED <<sent, timers, ticks, xphase>>
 Send(c, r) == /\ phase[c] = "open" /\ sent[c] < MaxSend
               /\ sent' = [sent EXCEPT ![c] = @ + 1]
-              /\ hist' = Append(hist, <<"send", c, r>>) /\ UNCHANGED <<phase, timers, ticks>>
+              /\ hist' = Append(hist, <<"send", c, r>>) /\ UNCHANGED <<phase, timers, ticks, xphase>>
 Close(c) == /\ phase[c] = "open" /\ phase' = [phase EXCEPT ![c] = "closed"]
-            /\ hist' = Append(hist, <<"close", c>>) /\ UNCHANGED <<sent, timers, ticks>>
-Timer == /\ timers < Cardinality({c \in Conns : phase[c] = "closed"})
+            /\ hist' = Append(hist, <<"close", c>>) /\ UNCHANGED <<sent, timers, ticks, xphase>>
+OpenX == /\ WithX /\ xphase = "new" /\ xphase' = "open"
+         /\ hist' = Append(hist, <<"openx">>) /\ UNCHANGED <<phase, sent, timers, ticks>>
+CloseX == /\ xphase = "open" /\ xphase' = "closed"
+          /\ hist' = Append(hist, <<"closex">>) /\ UNCHANGED <<phase, sent, timers, ticks>>
+Timer == /\ timers < Cardinality({c \in Conns : phase[c] = "closed"}) + (IF xphase = "closed" THEN 1 ELSE 0)
          /\ timers' = timers + 1
-         /\ hist' = Append(hist, <<"timer">>) /\ UNCHANGED <<phase, sent, ticks>>
+         /\ hist' = Append(hist, <<"timer">>) /\ UNCHANGED <<phase, sent, ticks, xphase>>
 Tick == /\ Fine /\ ticks < MaxTicks /\ ticks' = ticks + 1
-        /\ hist' = Append(hist, <<"tick">>) /\ UNCHANGED <<phase, sent, timers>>
+        /\ hist' = Append(hist, <<"tick">>) /\ UNCHANGED <<phase, sent, timers, xphase>>
 Settle == /\ Fine /\ hist # <<>> /\ hist[Len(hist)] # <<"settle">>
-          /\ hist' = Append(hist, <<"settle">>) /\ UNCHANGED <<phase, sent, timers, ticks>>
+          /\ hist' = Append(hist, <<"settle">>) /\ UNCHANGED <<phase, sent, timers, ticks, xphase>>
 
 Next == /\ Len(hist) < D
         /\ \/ \E c \in Conns : Open(c) \/ Close(c) \/ (\E r \in ReqSet : Send(c, r))
-           \/ Timer \/ Tick \/ Settle
+           \/ Timer \/ Tick \/ Settle \/ OpenX \/ CloseX
 Spec == Init /\ [][Next]_vars
 
 Finished == Len(hist) = D \/ (\A c \in Conns : phase[c] = "closed")
